@@ -23,6 +23,7 @@ RULE = (
     "parse_jaqal_file on a file holding the same text, with the same flags and overrides, must give an equal circuit. "
     "Non-trivial = history of >= 3 steps with >= 2 different passes on a program with >= 2 macro levels or a "
     "subcircuit inside a loop or macro. distinct = (text, overrides, history)."
+    " map-parameters: template programs whose macros index the fundamental register by a parameter (named i, p, or like the alias or the let) or index a register parameter, with alias references around them (main body, loop, a parameterless macro): fill_in_map alone, after fill_in_let, through the flag expand_let_map and together with expand_macro must answer, keep the meaning, leave no alias reference in those statements and give text that parses back."
 )
 ASSUMPTIONS = [
     "'applicable' for fill_in_map is taken from its docstring and from its use in parse_jaqal_string (after fill_in_let; macros expanded)",
@@ -252,9 +253,79 @@ def flags(case):
     return {"nontrivial": nt, "classes": ["flags:" + "".join("1" if fl[k] else "0" for k in sorted(fl)), "outcome:" + st_p], "key": text + repr(fl) + repr(sorted(env.items()))}
 
 
+def _mapparam_case(ch):
+    n = ch.int(2, 5)
+    start = ch.int(0, n - 1)
+    step = ch.int(1, 2)
+    length = len(range(start, n, step))
+    return {
+        "n": n, "start": start, "step": step,
+        "call_index": ch.int(0, n - 1), "body_index": ch.int(0, n - 1), "alias_index": ch.int(0, length - 1),
+        "let_index": ch.bool(), "alias_in_macro": ch.bool(), "param_name": ch.pick(["i", "p", "a", "n"]),
+    }
+
+
+def map_parameters(case):
+    """Alias fill-in with macros whose bodies index the FUNDAMENTAL register by a parameter
+    (`X q[i]`) or index a parameter (`Y p[0]`): no alias is involved there, so the pass - alone,
+    through the parser flag, and together with expand_macro (which keeps the definitions) -
+    answers, rewrites the alias references around them and keeps the meaning."""
+    from jaqalpaq.core.algorithm.fill_in_map import fill_in_map
+    from jaqalpaq.core.algorithm import fill_in_let
+    from jaqalpaq.parser import parse_jaqal_string
+
+    n, start, step = case["n"], case["start"], case["step"]
+    if not (2 <= n <= 8 and 0 <= start < n and step >= 1):
+        raise Skip()
+    length = len(range(start, n, step))
+    ci, bi, ai = case["call_index"], case["body_index"], case["alias_index"]
+    if not (0 <= ci < n and 0 <= bi < n and 0 <= ai < length):
+        raise Skip()
+    pn = case["param_name"]
+    if pn not in ("i", "p", "a", "n"):
+        raise Skip()
+    # the parameter may be named like the alias or the let (it shadows them inside the body)
+    lines = [f"let n {bi}", f"register q[{n}]", f"map a q[{start}:{n}:{step}]"]
+    lines.append(f"macro m {pn} {{ X q[{pn}] }}")
+    lines.append("macro w r { Y r[%s] }" % ("n" if case["let_index"] else bi))
+    if case["alias_in_macro"]:
+        lines.append(f"macro u {{ Z a[{ai}] }}")
+    lines += [f"m {ci}", "w q", f"H a[{ai}]", "loop 2 { m %d ; H a[0] }" % bi]
+    if case["alias_in_macro"]:
+        lines.append("u")
+    text = "\n".join(lines) + "\n"
+    c = parse(text)
+    want = extract.meaning(c, {})
+    routes = {
+        "fill_in_map(fill_in_let)": lambda: fill_in_map(fill_in_let(c)),
+        "fill_in_map": lambda: fill_in_map(c),
+        "flag expand_let_map": lambda: parse_jaqal_string(text, autoload_pulses=False, expand_let_map=True),
+        "flags expand_let_map+expand_macro": lambda: parse_jaqal_string(text, autoload_pulses=False, expand_let_map=True, expand_macro=True),
+    }
+    for name, fn in routes.items():
+        st_, r = guard(fn, what=name)
+        if st_ == "err":
+            raise Violation("pass-rejected-valid-circuit", f"{name}: {r}\n--- program:\n{text}", where=name)
+        try:
+            got = extract.meaning(r, {})
+        except extract.ExtractError as e:
+            raise Violation("result-unresolvable", f"{name}: {e}\n--- program:\n{text}", where=name)
+        if not same_meaning(want, got):
+            raise Violation("meaning-changed", f"{name}:\nexpected {show(want)}\ngot      {show(got)}\n--- program:\n{text}\n--- result:\n{generate(r)}", where=name)
+        out = generate(r)
+        body = out.split("\n\n")
+        if any(("a[" in ln) for ln in out.splitlines() if ln.lstrip().startswith(("H ", "Z "))):
+            raise Violation("alias-reference-left", f"{name}\n--- program:\n{text}\n--- result:\n{out}", where=name)
+        st2, r2 = guard(parse, out, what="re-parse of the result")
+        if st2 == "err":
+            raise Violation("result-not-legal-jaqal", f"{name}: {r2}\n--- result:\n{out}", where=name)
+    return {"nontrivial": True, "classes": ["param-name:" + pn, "let-index:%s" % case["let_index"], "alias-in-macro:%s" % case["alias_in_macro"]], "key": text, "sample": {"text": text}}
+
+
 def parts():
     return [
         Part("histories-anon", cases(False), lambda c: check(c, "anon"), quick=1500, thorough=50000, min_nontrivial=0.05),
         Part("histories-native", cases(True), lambda c: check(c, "native"), quick=800, thorough=25000, min_nontrivial=0.05),
         Part("parser-flags", flag_cases(), flags, quick=1200, thorough=30000, min_nontrivial=0.2),
+        Part("map-parameters", gen.cases(_mapparam_case), map_parameters, quick=500, thorough=6000, min_nontrivial=0.2),
     ]
